@@ -6,10 +6,11 @@
    the correspondence and the direct oracle of harness/c10 (see lib/checks/C10.py), not by a theorem.
    Property theorems only: each is closed by [exact <lemma>] and followed by Print Assumptions. *)
 From Coq Require Import String.
-From Verif Require Import Bytes WordEnc Writer.
-From Verif Require Import Eml EmlRender EmlWriter.
+From Verif Require Import Bytes Base64 LineBreaker QP HeaderFold WordEnc Writer MimeTree MimeRead Render.
+From Verif Require Import Eml EmlRender EmlWriter EmlFront EmlRoundtrip EmlWord.
 From VerifGen Require Import Gen.
-From VerifProofs Require Import EmlProofs EmlRenderProofs EmlWriterProofs.
+From VerifProofs Require Import RenderProofs MimeReadProofs C01Proofs.
+From VerifProofs Require Import EmlProofs EmlRenderProofs EmlWriterProofs EmlCodecProofs EmlRoundtripMain EmlStructureProofs EmlRoundtripExample EmlWordProofs EmlSubjectProofs EmlWordValueProofs.
 
 (* (A) For every parsed message (any header content, any part tree) and whichever of From/To/Cc are
    present, the top-level header block written by the next render names no field twice.
@@ -141,3 +142,150 @@ Example C10_example :
              rerender_fields st true true false =
              [hdr_date; hdr_mime_version; hdr_message_id; hdr_user_agent; hdr_x_mailer; hdr_from; hdr_to; hdr_content_type].
 Proof. eexists. split; vm_compute; reflexivity. Qed.
+
+
+(* =====================================================================================================
+   THE CENTRAL CLAIM: parsing the rendering yields a Msg with the same subject, From/To/Cc, date, body
+   parts (type, charset, content) and files (name, bytes, kind), with nothing added.
+   Models: Writer.v/Render.v (writer), MimeRead.v (RFC reader), EmlFront.v (the Go stdlib in front of the
+   parser: textproto header reading, mime.ParseMediaType, multipart.Part's transparent quoted-printable
+   decoding, the base64 / quoted-printable decoders), Eml.v (the parser).  eml_parse = parser o front end
+   o read_tree is ONE Gallina function on bytes; the correspondence kind "front" compares it with the real
+   EMLToMsgFromString on every rendering the harness generates.
+   ===================================================================================================== *)
+
+(* ---------- layer 1: body content, for ALL content bytes ---------- *)
+(* what the parser's decoders make of what the writer's encoders put on the wire, per transfer encoding *)
+Theorem C10_body_roundtrip : forall (e : Writer.enc) (p : producer),
+  (e = EncQP \/ e = EncB64 \/ e = Enc8bit) ->
+  wf_bytes (content_of p) = true -> (e = EncQP -> no_bare_cr (content_of p) = true) ->
+  eml_decode_body e (encode_body e p) = Some (expected_content e (content_of p)).
+Proof. exact body_roundtrip. Qed.
+Print Assumptions C10_body_roundtrip.
+
+(* quoted-printable is exact on text whose line breaks are all CRLF (a lone LF comes back as CRLF) *)
+Theorem C10_body_qp_crlf_exact : forall s : bytes, crlf_only s = true -> canon_crlf s = s.
+Proof. exact canon_crlf_id. Qed.
+Print Assumptions C10_body_qp_crlf_exact.
+
+(* the refuted classes stay visible: a bare CR in quoted-printable text (stdlib writer quirk) … *)
+Theorem C10_body_qp_bare_cr_refuted : exists p, wf_bytes (content_of p) = true /\
+  eml_decode_body EncQP (encode_body EncQP p) <> Some (canon_crlf (content_of p)).
+Proof. exact body_qp_bare_cr_refuted. Qed.
+Print Assumptions C10_body_qp_bare_cr_refuted.
+
+(* … and 7bit (known finding 7bit-requoted): the wire text itself becomes the content … *)
+Theorem C10_body_7bit_refuted : exists p, wf_bytes (content_of p) = true /\ crlf_only (content_of p) = true /\
+  eml_decode_body (EncOther enc_7bit) (encode_body (EncOther enc_7bit) p) <> Some (content_of p).
+Proof. exact body_7bit_refuted. Qed.
+Print Assumptions C10_body_7bit_refuted.
+
+(* … so exactly the texts quoted-printable encoding leaves alone survive under the 7bit label *)
+Theorem C10_body_7bit_partial : forall (n : bytes) (p : producer), qp_run (pchunks p) = content_of p ->
+  eml_decode_body (EncOther n) (encode_body (EncOther n) p) = Some (content_of p).
+Proof. exact body_7bit_partial. Qed.
+Print Assumptions C10_body_7bit_partial.
+
+(* ---------- layer 2: headers ---------- *)
+(* mime.WordDecoder.DecodeHeader inverts mime.WordEncoder.Encode: for the Q and the B encoder, every
+   value of well-formed bytes — any length, i.e. including the splitting into several encoded-words at
+   rune boundaries — provided the value needs encoding or contains no "=?" *)
+Theorem C10_header_decode_encode : forall (e : N) (s : bytes),
+  (e = 113%N \/ e = 98%N) -> wf_bytes s = true ->
+  (WordEnc.needs_encoding s = true \/ no_eq_q s = true) ->
+  decode_header (word_encode e s) = Some s.
+Proof. exact decode_word_encode. Qed.
+Print Assumptions C10_header_decode_encode.
+
+(* the hypothesis is needed: a plain-ASCII value that already looks like an encoded-word is written
+   as it is and decoded by every reader (low-severity finding noted in DESIGN section 6 for C02) *)
+Theorem C10_header_literal_word_refuted :
+  WordEnc.needs_encoding (bs "=?UTF-8?q?a?=") = false /\
+  decode_header (word_encode 113 (bs "=?UTF-8?q?a?=")) = Some (bs "a").
+Proof. exact decode_literal_word_refuted. Qed.
+Print Assumptions C10_header_literal_word_refuted.
+
+(* ---------- layer 3: structure ---------- *)
+(* S2: the header blocks the writer produces (folded fields, part header lines, the multipart
+   announcement) are read by textproto into exactly the canonical field tree of the message *)
+Theorem C10_field_tree : forall (d i : bytes) (rb : list bytes) (m : Writer.msg),
+  let z := resolve d i rb m in
+  in_feature_set m = true -> good_value d = true -> good_value i = true -> boundaries_ok z = true ->
+  fnode_of_node (expected_tree z) = Some (ctree z).
+Proof. exact fnode_expected. Qed.
+Print Assumptions C10_field_tree.
+
+(* S3: on that field tree the parser model yields a Msg whose observables are those of the message *)
+Theorem C10_parse_canonical : forall (pa pl : bytes -> ares) (pd : bytes -> dres) (d i : bytes) (rb : list bytes) (m : Writer.msg),
+  let z := resolve d i rb m in
+  in_feature_set m = true -> good_value d = true -> good_value i = true ->
+  oracles_ok pa pl pd d m -> boundaries_ok z = true ->
+  exists st, parse_eml_fixed (top_of_fnode pa pl pd (ctree z)) = Ok st /\
+             project_parsed st = project_built d m.
+Proof. exact parse_ctree. Qed.
+Print Assumptions C10_parse_canonical.
+
+(* END TO END.  For every message m in the feature set ([in_feature_set]: UTF-8; Subject and addresses
+   made of single-blank-separated printable words; >= 1 text/plain|text/html part in quoted-printable,
+   base64 or 8bit with any well-formed content (CRLF/LF text for quoted-printable); any number of
+   alternatives, embeds and attachments whose names the writer leaves unchanged; no cached boundaries),
+   rendered on date d with message id i and random boundaries rb, under
+     H-addr/H-date ([oracles_ok]: net/mail parses a formatted address (list) / the written date back),
+     H-rand' ([boundaries_ok]: the boundaries are RFC 2045 tokens) and
+     H-rand  ([fresh_expected], from C01: no body shows a delimiter of an enclosing boundary),
+   parsing the bytes WriteTo produced yields a Msg whose subject, From, To, Cc, date, body parts (type,
+   charset, content) and files (name, bytes, kind) are those of m — the part and file lists are EQUAL,
+   so nothing is added. *)
+Theorem C10_parse_render : forall (pa pl : bytes -> ares) (pd : bytes -> dres) (d i : bytes) (rb : list bytes) (m : Writer.msg),
+  let z := resolve d i rb m in
+  in_feature_set m = true -> good_value d = true -> good_value i = true ->
+  oracles_ok pa pl pd d m -> boundaries_ok z = true -> fresh_expected z = true ->
+  exists st, eml_parse pa pl pd (r_out (write_to d i rb m unlimited)) = Ok st /\
+             project_parsed st = project_built d m.
+Proof. exact parse_render. Qed.
+Print Assumptions C10_parse_render.
+
+(* the hypotheses are satisfiable on a message with two alternatives, an embed and an attachment … *)
+Example C10_parse_render_hypotheses_satisfiable :
+  in_feature_set ex10 = true /\ good_value ex10_date = true /\ good_value ex10_msgid = true /\
+  oracles_ok ex_pa ex_pl ex_pd ex10_date ex10 /\ boundaries_ok ex10_z = true /\ fresh_expected ex10_z = true.
+Proof. exact ex10_hypotheses. Qed.
+
+(* … and the statement is not vacuous on it (computed directly from the rendered bytes) *)
+Example C10_parse_render_example :
+  exists st, eml_parse ex_pa ex_pl ex_pd (r_out (write_to ex10_date ex10_msgid ex10_rb ex10 unlimited)) = Ok st /\
+             project_parsed st = project_built ex10_date ex10 /\
+             length (pj_parts (project_parsed st)) = 2%nat /\ length (pj_atts (project_parsed st)) = 1%nat /\
+             length (pj_embs (project_parsed st)) = 1%nat.
+Proof. exact ex10_direct. Qed.
+
+(* 7bit end to end (known finding 7bit-requoted): outside the feature set, and refuted on the bytes *)
+Example C10_parse_render_7bit_refuted :
+  exists st, eml_parse ex_pa ex_pl ex_pd (r_out (write_to ex10_date ex10_msgid ex10_rb ex7 unlimited)) = Ok st /\
+             pj_parts (project_parsed st) = [(type_text_plain, charset_utf8, bs "a=3Db")] /\
+             pj_parts (project_built ex10_date ex7) = [(type_text_plain, charset_utf8, bs "a=b")].
+Proof. exact ex7_refuted. Qed.
+
+
+(* layers 2 and 3 composed: the subject TEXT s the caller set (Subject = word_encode e s) is what an
+   RFC 2047 decode of the parsed message's Subject gives; From/To/Cc and the date survive by
+   C10_parse_render under the net/mail oracle assumptions H-addr / H-date *)
+Theorem C10_subject_survives : forall (pa pl : bytes -> ares) (pd : bytes -> dres) (d i : bytes) (rb : list bytes)
+    (m : Writer.msg) (e : N) (s : bytes),
+  let z := resolve d i rb m in
+  in_feature_set m = true -> good_value d = true -> good_value i = true ->
+  oracles_ok pa pl pd d m -> boundaries_ok z = true -> fresh_expected z = true ->
+  Writer.m_gen m = [(hdr_subject, [word_encode e s])] ->
+  (e = 113%N \/ e = 98%N) -> wf_bytes s = true -> (WordEnc.needs_encoding s = true \/ no_eq_q s = true) ->
+  exists st v, eml_parse pa pl pd (r_out (write_to d i rb m unlimited)) = Ok st /\
+               pj_subject (project_parsed st) = Some v /\ decode_header v = Some s.
+Proof. exact subject_survives. Qed.
+Print Assumptions C10_subject_survives.
+
+(* the value class of the feature set ([good_value]: non-empty printable words, single blanks) contains
+   every RFC 2047-encoded value: subjects that need encoding are never excluded by it *)
+Theorem C10_encoded_value_in_feature_set : forall (e : N) (s : bytes),
+  (e = 113%N \/ e = 98%N) -> wf_bytes s = true -> WordEnc.needs_encoding s = true ->
+  good_value (word_encode e s) = true.
+Proof. exact encoded_value_good. Qed.
+Print Assumptions C10_encoded_value_in_feature_set.
